@@ -477,6 +477,64 @@ def small_float_cases():
                                 'component %d = toFloat32(bits %d..%d)' % (i, 16 * i, 16 * i + 15) if ok else 'got %s' % tm.show(u, 4), kernel=ku.source()))
             return res
         cs += [R.Case('pack' + suffix, [kp], jp), R.Case('unpack' + suffix, [ku], ju)]
+    # templated packHalf<L> / unpackHalf<L>: lane i of the result is the scalar codec applied to lane i of the argument
+    for L_ in (1, 2, 3, 4):
+        vt, ht = G.vec(L_, 'float'), G.vec(L_, 'uint16')
+        kp = K('tpackHalf_%d' % L_, [Par('o', ht, False), Par('v', vt)], '*o = packHalf(*v);', CFG)
+        ku = K('tunpackHalf_%d' % L_, [Par('o', vt, False), Par('p', ht)], '*o = unpackHalf(*p);', CFG)
+
+        def jp(ctx, kp=kp, vt=vt, ht=ht, L_=L_):
+            it = ctx.fn(kp)
+            res = []
+            for i in range(L_):
+                f = I.out_lane(it, 'o', ht.lanes[i], 2)
+                arg = opaque_call(f, 'toFloat16')
+                ok = arg is L.in_term('v', vt, i)
+                res.append(R.ob('packHalf<%d>.lane%d' % (L_, i), 'small_float_plumbing', R.PROVED if ok else (R.REFUTED if arg is not None else R.UNDECIDED),
+                                'lane %d = toFloat16(component %d)' % (i, i) if ok else 'got %s' % tm.show(f, 4), where=R.where_of(it, f) if not ok else None, kernel=kp.source()))
+            return res
+
+        def ju(ctx, ku=ku, vt=vt, ht=ht, L_=L_):
+            it = ctx.fn(ku)
+            res = []
+            for i in range(L_):
+                u = I.out_lane(it, 'o', vt.lanes[i], 4)
+                arg = opaque_call(u, 'toFloat32')
+                ok = arg is L.in_term('p', ht, i)
+                res.append(R.ob('unpackHalf<%d>.comp%d' % (L_, i), 'small_float_plumbing', R.PROVED if ok else (R.REFUTED if arg is not None else R.UNDECIDED),
+                                'component %d = toFloat32(lane %d)' % (i, i) if ok else 'got %s' % tm.show(u, 4), where=R.where_of(it, u) if not ok else None, kernel=ku.source()))
+            return res
+        cs += [R.Case('packHalf<%d>' % L_, [kp], jp), R.Case('unpackHalf<%d>' % L_, [ku], ju)]
+    # RGBM: unpackRGBM == rgb * m * 6 ; packRGBM: m = ceil(clamp(max(r/6, g/6, b/6, 1e-6), 0, 1) * 255) / 255 and the colour lanes are (c / 6) / m, so that unpackRGBM(packRGBM(c)) == c as rational functions
+    for T in ('float', 'double'):
+        v3, v4 = G.vec(3, T), G.vec(4, T)
+        w = v3.elem * 8
+        kpk = K('packRGBM_%s' % v3.tag, [Par('o', v4, False), Par('c', v3)], '*o = packRGBM(*c);', CFG)
+        kup = K('unpackRGBM_%s' % v3.tag, [Par('o', v3, False), Par('p', v4)], '*o = unpackRGBM(*p);', CFG)
+        krt = K('rtRGBM_%s' % v3.tag, [Par('o', v3, False), Par('c', v3)], '*o = unpackRGBM(packRGBM(*c));', CFG)
+
+        def jr(ctx, kpk=kpk, kup=kup, krt=krt, v3=v3, v4=v4, w=w, T=T):
+            from laneflow import poly as P
+            res = []
+            pc = P.PCtx()
+            up = L.out_lanes(ctx, kup, v3)
+            p_ = S.vecE('p', v4)
+            for i in range(3):
+                st, detail = S.compare(up[i], (p_[i] * p_[3] * 6.0).t, pc=pc, nan=False)
+                res.append(R.ob('unpackRGBM<%s>[%d]' % (T, i), 'rgbm', st, 'rgb * m * 6' if st == R.PROVED else detail, where=R.where_of(ctx.fn(kup), up[i]) if st != R.PROVED else None, kernel=kup.source()))
+            pk = L.out_lanes(ctx, kpk, v4)
+            c_ = S.vecE('c', v3)
+            sixth = S.const(w, 1.0 / 6.0)
+            col = [x * sixth for x in c_]
+            mx = S.gmax(S.gmax(col[0], col[1]), S.gmax(col[2], S.const(w, 1e-6)))
+            m_ = S.fn('ceil', S.gclamp(mx, S.const(w, 0.0), S.const(w, 1.0)) * 255.0) / 255.0
+            st, detail = S.compare(pk[3], m_.t, pc=pc, nan=False)
+            res.append(R.ob('packRGBM<%s>.m' % T, 'rgbm', st, 'm = ceil(clamp(max(r, g, b, 6e-6) / 6, 0, 1) * 255) / 255' if st == R.PROVED else detail, where=R.where_of(ctx.fn(kpk), pk[3]) if st != R.PROVED else None, kernel=kpk.source()))
+            for i in range(3):
+                st, detail = S.compare(pk[i], (col[i] / S.E(pk[3])).t, pc=pc, nan=False)
+                res.append(R.ob('packRGBM<%s>[%d]' % (T, i), 'rgbm', st, 'colour lane = (c / 6) / m with the stored multiplier m' if st == R.PROVED else detail, where=R.where_of(ctx.fn(kpk), pk[i]) if st != R.PROVED else None, kernel=kpk.source()))
+            return res
+        cs.append(R.Case('RGBM<%s>' % T, [kpk, kup, krt], jr))
     # F2x11_1x10
     v3, wt = G.vec(3, 'float'), G.scalar('uint32')
     kp = K('packF2x11_1x10', [Par('o', wt, False), Par('v', v3)], '*o = packF2x11_1x10(*v);', CFG)
